@@ -288,10 +288,11 @@ func init() {
 		ID: "C08",
 		NumCases: func(tier string, seed int64) int {
 			w, r := c08Sizes(tier)
-			return w + r + 2
+			return w + r + 3
 		},
 		CaseTimeout: func(string) time.Duration { return 15 * time.Minute },
 		Rule: "writer: lal message2Chunks for all lengths 0..3cs+2, cs∈{1,2,127,128,129,4096}, boundary+seeded timestamps, csid/type/msid cycling, plus large boundary lengths, read back by the reference reader and by lal's ChunkComposer; " +
+			"lal's command serialiser: connect/play/publish of its pull and push client sessions with application names and stream queries of 8..40000 bytes (single- and multi-chunk), decoded by the reference peer; " +
 			"reader: reference writer output for message lists ≤3 with every legal header-format assignment, chunk interleavings across chunk streams, Set Chunk Size changes between/inside messages, extended timestamps and aggregates, fed to ChunkComposer in one piece, byte-wise and in random slices. " +
 			"cell = direction × timestamp class × length class / reader scenario class; non-trivial = message decoded and compared field by field.",
 		Assumptions: []string{"reference chunk reader/writer ref/rtmpchunk.go follows RTMP 1.0 §5.3 incl. extended timestamp on type-3 chunks",
@@ -364,9 +365,78 @@ func c08Run(c *fw.Ctx, i int) {
 	case i == wS+1:
 		c.Describe("reader: aggregates")
 		c08Aggregates(c)
+	case i == wS+2:
+		c.Describe("writer: lal's own command serialiser (MessagePacker) through its client sessions")
+		c08ClientCommands(c)
 	default:
-		c08ReaderCase(c, i-wS-2)
+		c08ReaderCase(c, i-wS-3)
 	}
+}
+
+// c08ClientCommands: lal's pull and push client sessions serialise connect / play / publish with
+// MessagePacker; long application names and stream-name queries make those commands span several
+// chunks. The reference stub decodes what arrives: the fields must be the ones in the url.
+func c08ClientCommands(c *fw.Ctx) {
+	stub, err := ref.NewRtmpStub(nil)
+	if err != nil {
+		c.Inconclusive("stub: %v", err)
+		return
+	}
+	defer stub.Close()
+	word := func(n int) string {
+		b := make([]byte, n)
+		for k := range b {
+			b[k] = "abcdefghijklmnopqrstuvwxyz0123456789"[c.Rng.Intn(36)]
+		}
+		return string(b)
+	}
+	lens := []int{8, 3800, 3900, 3950, 4000, 4040, 4070, 4090, 4096, 4100, 4200, 5000, 8100, 8192, 8300, 12300, 20000, 40000}
+	for _, role := range []string{"play", "publish"} {
+		for _, where := range []string{"app", "query"} {
+			for _, L := range lens {
+				app, name := "live", "n"+word(6)
+				if where == "app" {
+					app = "a" + word(L)
+				} else {
+					name += "?token=" + word(L)
+				}
+				url := "rtmp://" + stub.Addr + "/" + app + "/" + name
+				n := len(stub.Snapshot())
+				var dispose func()
+				var serr error
+				if role == "play" {
+					ps := rtmp.NewPullSession(func(o *rtmp.PullSessionOption) { o.PullTimeoutMs = 3000 })
+					serr = ps.Pull(url)
+					dispose = func() { ps.Dispose() }
+				} else {
+					ps := rtmp.NewPushSession(func(o *rtmp.PushSessionOption) { o.PushTimeoutMs = 3000 })
+					serr = ps.Push(url)
+					dispose = func() { ps.Dispose() }
+				}
+				var ss *ref.StubSession
+				for _, x := range stub.Snapshot() {
+					if x.N == n {
+						ss = x
+					}
+				}
+				c.Eval(1)
+				cell := fmt.Sprintf("packer/%s/long-%s/%s", role, where, lenClass(L, 4096))
+				c.Cell("%s", cell)
+				if ss == nil {
+					c.Inconclusive("client session %s never connected to the stub: %v", role, serr)
+					dispose()
+					continue
+				}
+				gotRole, gotApp, _, gotName := ss.GetConn()
+				if serr != nil || gotRole != role || gotApp != app || gotName != name {
+					c.Violate("writer/"+cell, fmt.Sprintf("lal's %s session with a %d-byte %s: the reference peer decoded role=%q app(len %d)==sent:%v name(len %d)==sent:%v, session error=%v",
+						role, L, where, gotRole, len(gotApp), gotApp == app, len(gotName), gotName == name, serr), nil)
+				}
+				dispose()
+			}
+		}
+	}
+	c.Sample(map[string]interface{}{"kind": "packer-client-commands", "lengths": lens})
 }
 
 func c08Aggregates(c *fw.Ctx) {
